@@ -49,3 +49,94 @@ def replay_sender_frame_limit(model, params, role):
     lens = params.get("lens", [0, 1, 2, 3, 255, 256, 300])
     n = lens[ch.get("frames", 0)]
     return f"send_multipart_frames {n}\n", (lambda out: "PANIC" in out), f"Socket::send_multipart with {n} frames; expecting a panic"
+
+
+AIE = "socket::patterns::anonymous_ingress::AnonymousIngressEngine"
+PMS = "socket::patterns::ready_pipe_queue::PipeMessageSender"
+
+
+def _poll_async(h, ty, name, args):
+    fn = h.it.prog.resolve_method("", ty, name, None)
+    coro = h.it.run_body(h.it.prog.body(fn), list(args))
+    r = h.it.run_body(h.it.prog.body(fn + "::{closure#0}"), [Ref(Cell(coro, "coro"), ()), Opaque("cx")])
+    if not (isinstance(r, Enum) and r.vname == "Ready"):
+        raise RuntimeError("pending")
+    return r.f[0]
+
+
+def _mk_msg(h, tag, more):
+    m = h.method("message::msg::Msg", "from_vec", Seq("vec", [tag]))
+    r = Ref(Cell(m, "m"), ())
+    fl = h.it.run_body(h.it.prog.body(h.it.resolve_fn("message::flags::_::<impl message::flags::MsgFlags>::from_bits_retain", "")), [1 if more else 0])
+    h.method("message::msg::Msg", "set_flags", r, fl)
+    return r.load()
+
+
+def _tag(m):
+    d = m.f[0]
+    return d.f[0].f[0] if d.idx == 1 and d.f[0].f else None
+
+
+def ingress_mixed_reads(h):
+    """PULL/SUB ingress: two peers, message A (3 frames) on pipe 0 and B (2 frames) on pipe 1 queued; the
+    application mixes recv() and recv_multipart() (RCVTIMEO 0); every frame handed out must continue the
+    message that is being read."""
+    from .d_c07 import _frames, _flag
+    k = h.params.get("calls", 4)
+    eng = Ref(Cell(h.method(AIE, "new", 4), "ingress"), ())
+    senders = [Ref(Cell(h.method(AIE, "register_pipe", eng, p, 4, 1), f"s{p}"), ()) for p in range(2)]
+    def enqueue(p, tags):
+        fb = Ref(Cell(h.method("message::FrameBatch", "new"), "fb"), ())
+        for i, t in enumerate(tags):
+            h.method("message::FrameBatch", "push", fb, _mk_msg(h, t, i + 1 < len(tags)))
+        r = h.method(PMS, "try_send_sync", senders[p], fb.load())
+        h.check(r.idx == 0, "c02.ingress.setup-enqueue")
+    msgs = {0: [0xA1, 0xA2, 0xA3], 1: [0xB1, 0xB2]}
+    first = h.choose(2, "first_enqueued")
+    enqueue(first, msgs[first])
+    enqueue(1 - first, msgs[1 - first])
+    h.panic_role = "c02.ingress"
+    zero = Enum("std::option::Option", 1, "Some", [Agg("std::time::Duration", [0])])
+    delivered = []
+    detached = set()
+    nops = 4 if h.params.get("detach") else 2
+    for i in range(k):
+        op = h.choose(nops, f"call{i}")
+        if op >= 2:
+            p = op - 2
+            h.method(AIE, "deregister_pipe", eng, p)
+            detached.add(p)
+            delivered.append(("detach", p))
+            continue
+        if op == 0:
+            r = _poll_async(h, AIE, "recv", [eng, clone_val(zero)])
+            if r.idx == 0:
+                delivered.append((_tag(r.f[0]), bool(_flag(r.f[0], 1))))
+        else:
+            r = _poll_async(h, AIE, "recv_multipart", [eng, clone_val(zero)])
+            if r.idx == 0:
+                for m in _frames(r.f[0]):
+                    delivered.append((_tag(m), bool(_flag(m, 1))))
+    # oracle: delivered frames form whole messages, contiguous and in order
+    expect_next = None
+    for tag, more in delivered:
+        if tag == "detach":
+            # a partially read message may be cut short only by the detachment of its own connection
+            if expect_next is not None and expect_next[0] == more:
+                expect_next = None
+            continue
+        owner = 0 if tag in msgs[0] else 1
+        idx = msgs[owner].index(tag)
+        if expect_next is not None:
+            h.check((owner, idx) == expect_next, "c02.ingress.frame-of-another-message-inside-a-partially-read-message",
+                    f"delivered order {[(hex(t) if isinstance(t, int) else t, m) for t, m in delivered]}")
+        else:
+            h.check(idx == 0, "c02.ingress.message-does-not-start-at-its-first-frame", f"delivered order {[(hex(t) if isinstance(t, int) else t, m) for t, m in delivered]}")
+        h.check(more == (idx + 1 < len(msgs[owner])), "c02.ingress.more-flag-wrong")
+        expect_next = (owner, idx + 1) if more else None
+    h.cover("c02.ingress.mixed-read", len(delivered) >= 3)
+
+
+def ingress_detach(h):
+    h.params = dict(h.params, detach=True)
+    ingress_mixed_reads(h)
